@@ -61,8 +61,19 @@ class RefL:
             self.next += math.floor(math.log(u) / math.log(1 - self.W)) + 1
 
 
-def make_impl(k):
+_SUB = {}
+
+
+def make_impl(k, sub=False):
     from ixai.storage import UniformReservoirStorage
+    if sub:     # a user subclass whose get_data hands out copies of the lists: the reservoir is the object's own content
+        if 'cls' not in _SUB:
+            class SnapshotUniform(UniformReservoirStorage):
+                def get_data(self):
+                    xs, ys = super().get_data()
+                    return list(xs), list(ys)
+            _SUB['cls'] = SnapshotUniform
+        return _SUB['cls'](size=k, store_targets=True)
     return UniformReservoirStorage(size=k, store_targets=True)
 
 
@@ -91,13 +102,16 @@ def build_neighbours():
 
 def driver_for(kind, k, n):
     def driver(run):
-        if kind in ('impl', 'neigh'):
-            s = make_impl(k)
+        if kind in ('impl', 'neigh', 'sub', 'fork'):
+            s = make_impl(k, sub=(kind == 'sub'))
             keep = None
             for t in range(1, n + 1):
                 s.update({'id': t}, t)
                 if kind == 'neigh' and t == k:
                     keep = build_neighbours()
+                if kind == 'fork' and t == k:       # checkpoint / restore: the stream continues on a deep copy
+                    import copy as _copy
+                    keep, s = s, _copy.deepcopy(s)
             xs, ys = s.get_data()
             ids = [x['id'] if x['id'] == y else (x['id'], y) for x, y in zip(list(xs), list(ys))]
             if len(list(ys)) != len(list(xs)):
@@ -259,7 +273,7 @@ def main(rep):
     cfgs = plan(rep.tier)
     tasks = []
     for k, n, base in cfgs:
-        for kind in ('impl', 'WS', 'SW') + (('neigh',) if k * n <= 6 or rep.tier == 'thorough' else ()):
+        for kind in ('impl', 'WS', 'SW') + (('neigh', 'sub', 'fork') if k * n <= (8 if rep.tier == 'thorough' else 6) else ()):
             with _np_quiet():
                 roots = choice.frontier(driver_for(kind, k, n), 2, grid_policy(base))
             tasks += [(kind, k, n, base, r) for r in roots]
@@ -294,13 +308,13 @@ def main(rep):
     states = 0
     table = []
     for k, n, base in cfgs:
-        res = {kind: merged[(kind, k, n, base)] for kind in ('impl', 'WS', 'SW', 'neigh') if (kind, k, n, base) in merged}
+        res = {kind: merged[(kind, k, n, base)] for kind in ('impl', 'WS', 'SW', 'neigh', 'sub', 'fork') if (kind, k, n, base) in merged}
         for kind, m in res.items():
             if abs(m['tot'] - 1.0) > 1e-9 and not m['reseeds']:
                 raise choice.HarnessError(f"leaf weights of {kind} (k={k},n={n}) sum to {m['tot']}")
         ref_err = [errors(res[kind]['acc'], k, n) for kind in ('WS', 'SW')]
         tau = max(TAU_FLOOR, TAU_FACTOR * max(max(e[0], e[1]) for e in ref_err))
-        for kind in ('impl', 'neigh'):
+        for kind in ('impl', 'neigh', 'sub', 'fork'):
             if kind not in res:
                 continue
             m = res[kind]
@@ -309,7 +323,9 @@ def main(rep):
             rep.unscripted += m['unscripted']
             states += len(m['acc'])
             desc = f"UniformReservoirStorage(size={k}) after n={n} observations (grid base {base})" + \
-                (", other library objects constructed after observation k" if kind == 'neigh' else "")
+                {'neigh': ", other library objects constructed after observation k",
+                 'sub': " (user subclass whose get_data returns copies of the lists)",
+                 'fork': ", continued on a deep copy taken after observation k"}.get(kind, "")
             worlds = split_worlds(m['acc'])
             scored = []
             for world, acc in worlds:
@@ -335,7 +351,7 @@ def main(rep):
                               f"{max(ref_err[0][:2]):.4f}, {max(ref_err[1][:2]):.4f}); "
                               f"P(item t kept) = {[round(incl[t], 4) for t in sorted(incl)]}",
                               {'k': k, 'n': n, 'base': base})
-            row = {'k': k, 'n': n, 'grid_base': base, 'scenario': 'alone' if kind == 'impl' else 'with-neighbours',
+            row = {'k': k, 'n': n, 'grid_base': base, 'scenario': {'impl': 'alone', 'neigh': 'with-neighbours', 'sub': 'snapshot-subclass', 'fork': 'deep-copy'}[kind],
                    'paths_impl': m['executions'], 'tau': round(tau, 5),
                    'err_subset_impl': round(e_sub, 5), 'err_inclusion_impl': round(e_inc, 5),
                    'err_ref_WS': round(max(ref_err[0][:2]), 5), 'err_ref_SW': round(max(ref_err[1][:2]), 5),
